@@ -124,6 +124,18 @@ func main() {
 	// program looked up is age-plugin-<name as given>, nothing more lenient
 	caseNames := []string{"Ab", "AB", "aB", "Yubikey", "YUBIKEY", "Q9", "ZZ", "Zz", "uponly", "UpOnly", "A.B", "A+B-C_D.E"}
 	names = append(caseNames, names...)
+	// long names: a valid head of 30..200 characters, alone (valid) and followed
+	// by something that makes the whole name invalid — a check that looks at a
+	// bounded prefix of the name would pass them
+	var longNames []string
+	for _, n := range []int{30, 63, 64, 65, 70, 71, 72, 78, 79, 80, 82, 83, 84, 100, 127, 128, 129, 200} {
+		head := strings.Repeat("abcdefghij", 21)[:n-1] + "z"
+		longNames = append(longNames, head)
+		for _, tail := range []string{"!", "$x", "/../x", "/", " ", "\n", "\x00", "é", ":", "\\"} {
+			longNames = append(longNames, head+tail)
+		}
+	}
+	names = append(longNames, names...)
 	r.Set("names_exhaustive_len_1_2", exhaustiveNames)
 	r.Set("names_total", len(names))
 
@@ -133,6 +145,9 @@ func main() {
 		for _, d := range []string{w.dA, w.dB, w.cwd, w.tmp} {
 			w.sentinel(d, name)
 		}
+	}
+	for _, n := range longNames {
+		plant(n) // (valid or not: a sentinel under the full name, where the file system allows it)
 	}
 	for _, n := range names {
 		if len(n) <= 1 && validName(n) {
